@@ -546,6 +546,45 @@ def c15_os2(run, fx):
                  "a table of %d bytes loses (or a shorter one over-reads) sTypoAscender .. usWinDescent" % (n_min, before, before + 10), "%s:%s" % (b.file, b.line))
 
 
+# ---- C15-s: the header size a CFF/CFF2 writer announces is the size of the header it writes -------------------------------------
+HDR_WRITERS = ("<cff::Header as binary::write::WriteBinary<&cff::Header>>::write", "<cff::cff2::Header as binary::write::WriteBinary>::write")
+
+
+def c15_s(run, fx, floors=True):
+    rule = "C15-s"
+    run.rule(rule, "CFF hdrSize / CFF2 headerSize (the third byte of the header, Technical Note 5176 section 6 and the CFF2 header): the reader skips "
+                   "to that offset to find what follows the header, and the library keeps none of the bytes in between, so the value a header writer "
+                   "emits there must be a constant equal to the number of bytes that writer emits - not the size parsed from the source font")
+    n = 0
+    for path in HDR_WRITERS:
+        b = fx.body(path)
+        if b is None:
+            if floors:
+                run.anchor_missing(rule, path)
+            continue
+        items, why = layout.writer_items(fx, b)
+        if why != "return" or len(items) < 3 or any(i.width is None for i in items):
+            run.fail(rule, "hdrsize-shape:%s" % path, "%s is no longer a straight sequence of fixed-width writes (%s): the announced header size is not decided" % (path, why), "%s:%s" % (b.file, b.line))
+            continue
+        n += 1
+        total = sum(i.width for i in items)
+        t = b.term(items[2].bb)
+        val = sym.strip(sym.Prov(b).op(t["args"][1]))
+        v = val[1] if val[0] == "c" else None
+        if val[0] == "uneval":
+            c = fx.const(val[1])
+            v = c.get("val") if c else None
+        if v is None:
+            run.fail(rule, "hdrsize:%s" % path, "%s announces a header size that is not a constant (%s) although it always writes %d bytes: a source font with a longer header "
+                     "makes the output point past its own header" % (path, sym.show(val)[:80], total), b.loc(t))
+        elif v != total:
+            run.fail(rule, "hdrsize:%s" % path, "%s announces a header of %s bytes and writes %d" % (path, v, total), b.loc(t))
+        else:
+            run.ok(rule, "%s: announces %d, writes %d bytes" % (path, v, total))
+    if floors:
+        run.floor(rule, "header writers", n, 2)
+
+
 def check(run, fx, tier, floors=True):
     import ignored
     ignored.run_for(run, fx, 'C15', floors)
@@ -565,3 +604,5 @@ def check(run, fx, tier, floors=True):
         c15_g(run, fx)
     if floors or fx.adt("cff::Operand") is not None:
         c15_h(run, fx)
+    if floors or any(fx.body(p) is not None for p in HDR_WRITERS):
+        c15_s(run, fx, floors)
